@@ -1,6 +1,7 @@
 import os
 
 from ..runner import LEAN, Harness, Spec, TieBroken, run_harness, write_if_changed
+from ..translate import go_translator
 
 
 def _schema_translator(ctx):
@@ -23,7 +24,7 @@ _E2E = {"zz_verif_c13_common_test.go": "c14/common_e2e.go", "zz_verif_c13_gen_te
 SPEC = Spec(
     pid="C13",
     lean_modules=["OtelVerif.Props.C13"],
-    translators=[_schema_translator],
+    translators=[_schema_translator, go_translator("unmarshalhooks", "OtelVerif/Gen/UnmarshalHooks.lean")],
     harnesses=[
         Harness(name="walk", module="confmap/xconfmap", pkg="confmap/xconfmap",
                 files={"zz_verif_c13_walk_test.go": "c13/walk_test.go"},
@@ -37,6 +38,11 @@ SPEC = Spec(
         Harness(name="load", module="cmd/otelcorecol", pkg="cmd/otelcorecol",
                 files={"zz_verif_c13_load_test.go": "c13/load_test.go", "zz_verif_c13_schema_test.go": "c13/schema_test.go"},
                 test="TestVerifC13Load", driver="drv_c13", n={"quick": 300, "thorough": 4000}, timeout_s=1200),
+        # monitor only: a RUNNING otelcol.Collector hands the effective configuration to a ConfigWatcher extension
+        Harness(name="watch", module="cmd/otelcorecol", pkg="cmd/otelcorecol",
+                files={"zz_verif_c13_watch_test.go": "c13/watch_test.go", "zz_verif_c13_load_test.go": "c13/load_test.go",
+                       "zz_verif_c13_schema_test.go": "c13/schema_test.go"},
+                test="TestVerifC13Watch", driver=None, n={"quick": 12, "thorough": 150}, timeout_s=1200),
     ],
     rule="walk: generated trees over a fixed family of Go node types (structs/slices/arrays/maps/leaves with value-receiver, "
          "pointer-receiver or no Validate; children in interface, typed-pointer, exported, unexported, squash-tagged and untagged fields; "
@@ -53,12 +59,16 @@ SPEC = Spec(
          "maps, tls pem fields); per instance the typed config is compared (DeepEqual) with the isolated load of its own keys on a fresh factory "
          "default and the effective configuration (confmap.Marshal of the whole otelcol.Config, as collector.go does for ConfigWatcher) leaf by "
          "leaf, secrets must be exactly the marker; non-trivial = two or more instances of one type. "
+         "watch: the same generated configurations (only nop receiver/exporter wired, the rest configured but unused) in a running "
+         "otelcol.Collector with a ConfigWatcher test extension: the configuration received by NotifyConfig must equal confmap.Marshal of "
+         "ConfigProvider.Get on the same document, contain every written key and no written secret. "
          "distinct = distinct op sequences (sha1 of the op lines).",
     trusted_base=[
         "Lean 4.33.0 kernel; axioms per theorem listed under axioms_per_theorem (subset of propext, Classical.choice, Quot.sound)",
         "hand-written model of xconfmap.validate (VT trees), tied by exact differential on the multiset of (path, error) pairs",
         "hand-written model of otelcol.Config.Validate / PipelineConfig.Validate / pipelines.Config.Validate; Go map iteration picks which "
         "error of a phase is reported: the model returns the admissible set, the reported one is monitored for membership",
+        "translators/cmd/unmarshalhooks (go/ast): sha256 of the printed bodies of the three built-in Unmarshal(*confmap.Conf) methods",
         "hand-written strictness model of mapstructure decoding as configured by confmap (ErrorUnused, squash, pointers, no weak typing), "
         "tied by exact differential (ok/error) on reflect-built types; mapstructure itself is library code",
         "load model (fresh default object per id, overlay of the instance's own keys): the per-instance defaults fed to the model are the effective "
@@ -68,7 +78,8 @@ SPEC = Spec(
         "model (decodeV/encodeV) is tied on these schemas by exact differential in the load harness (written leaves and untouched defaults of every instance)",
     ],
     assumptions=[
-        "faithfulness theorems are claimed for positions without a custom Unmarshal (regenerated list C13_builtin_custom_positions) and assume the MarshalText/UnmarshalText round trip of text kinds; slices and maps are atoms in the decode model",
+        "the built-in types with their own Unmarshal (regenerated list C13_builtin_custom_positions) are inside the theorems through hand-modelled fix-ups (hooksOfType: blocking alias, unwritten OTLP receiver protocols dropped, batcher reset), tied by exact differential and by regenerated body fingerprints (C13_hook_bodies_as_modelled); named exceptions: the *_url_path normalisation of the OTLP receiver and the unwritten settings below a written deprecated `batcher`",
+        "the MarshalText/UnmarshalText round trip of text kinds is assumed; slices and maps are atoms in the decode model (element-wise faithfulness is checked by the harness only)",
         "feature gates at their defaults (service.AllowNoPipelines disabled)",
         "value generators for the built-in components toggle booleans and numeric settings (always valid at decode time); string-valued settings with validation are exercised by fixed witnesses only",
     ],
